@@ -51,7 +51,8 @@ def fit_case(case):
     if variant == "offset":
         X = X * 0.37 - 1.21
     n, d = X.shape
-    p = {a: AXES[a][i] for a, i in cfg.items()}
+    p = dict(cfg["explicit"]) if "explicit" in cfg else {a: AXES[a][i] for a, i in cfg.items()}
+    p["split_leaf"] = tuple(p["split_leaf"])
     mss, msl = p["split_leaf"]
     kw = dict(max_clusters=p["max_clusters"], max_depth=p["max_depth"], min_samples_split=mss, min_samples_leaf=msl,
               max_features=p["max_features"], max_leaves=p["max_leaves"], kernel=p["kernel"], random_state=p["seed"])
@@ -176,7 +177,7 @@ def fit_case(case):
         if x["kind"] not in seen:
             seen.add(x["kind"])
             vs.append(x)
-    return {"v": vs, "nt": [(case[0], tuple(sorted(cfg.items())), variant)] if len(leaves) >= 2 else [],
+    return {"v": vs, "nt": [(case[0], repr(sorted(cfg.items())), variant)] if len(leaves) >= 2 else [],
             "out": [(len(leaves), depth, len(set(labs.tolist())), len(used))], "stats": {"evals": 1, "queries": len(Q)},
             "sample": {"data": data_spec, "variant": variant, "params": where, "n_leaves": len(leaves), "depth": depth, "labels_": labs}}
 
@@ -191,6 +192,8 @@ def explorers(tier, seed):
         datas += [(s, "plain") for s in (ms if (thorough or n < 4) else ms[::3])]
     datas += [(s, "offset") for s in list(row_multisets(4, 2))[::7]] + [(s, "offset") for s in row_multisets(5, 1)]
     datas += [(("generic", n, d), "plain") for n in (5, 6, 7) for d in (1, 2, 3)]
+    # the same multisets over adjacent doubles / near the overflow limit (only the precomputed-kernel configurations grow a tree there)
+    datas += [((kind, rows), "plain") for kind in ("rows_ulp", "rows_huge") for _, rows in list(row_multisets(4, 1)) + list(row_multisets(5, 1))]
     if thorough:
         datas += [(s, "plain") for s in list(row_multisets(6, 1))] + [(s, "plain") for s in list(row_multisets(5, 2))[::11]]
     cfg2 = configs(2)
@@ -200,7 +203,19 @@ def explorers(tier, seed):
         sub = [(s, "plain") for s in row_multisets(5, 1)] + [(s, "plain") for s in list(row_multisets(4, 2))[::5]] + \
               [(("generic", 6, 2), "plain"), (("generic", 7, 3), "plain")]
         cases += [(spec, c, variant, seed) for (spec, variant) in sub for c in full]
-    return [Explorer("structure_and_partition", "props.c09", "fit_case", cases, chunk=64, floor=1000,
+    big = []
+    for n, d in [(80, 2), (200, 2), (600, 2), (150, 3)] + ([(1000, 2), (400, 1)] if thorough else []):
+        for mc in (5, 8):
+            for sl in ((2, 1), (4, 2)):
+                for mlv in (None, 40, 90):
+                    for kern in ("linear", "rbf"):
+                        big.append((("blobs", n, d), {"explicit": dict(max_clusters=mc, max_depth=None, split_leaf=sl, max_features=None, max_leaves=mlv,
+                                                                       kernel=kern, seed=0)}, "plain", seed))
+    return [Explorer("large_trees", "props.c09", "fit_case", big, chunk=1, floor=20, case_timeout=1500,
+                     rule="real Kauri.fit on 80..600 (thorough: 1000) overlapping-blob samples with max_clusters 5/8, min_samples_leaf 1/2 and max_leaves "
+                          "None/40/90, linear and rbf kernels: trees with dozens of leaves (beyond any initial capacity an implementation might "
+                          "allocate), same structural oracle; outcomes = distinct (leaves, depth, clusters, used features)"),
+            Explorer("structure_and_partition", "props.c09", "fit_case", cases, chunk=64, floor=1000,
                      rule="real Kauri.fit on ALL multisets of rows over {0,1,2}^d (n<=5 d=1, n<=4 d=2; offset and generic variants) x all "
                           "configurations with <=2 parameters deviating from the default over the axes " + str({k: len(v) for k, v in AXES.items()}) +
                           (" plus the FULL product on a data subset" if thorough else "") +
